@@ -748,6 +748,11 @@ func registerFSAPI(e *Engine, m func(string, intrinsicFn)) {
 	})
 	// CrashImage(path): replaces the file by a crash image: all ops up to a chosen point k (>= last
 	// sync of that file), plus a torn prefix of the next write. Returns false when there is nothing to lose.
+	m("CrashImageAnywhere", func(fr *frame, args []value) value {
+		r := hRun(args)
+		fs := r.fsInit()
+		return Bool(fs.crashFrom(r, cleanPath(args[1]), true))
+	})
 	m("CrashImage", func(fr *frame, args []value) value {
 		r := hRun(args)
 		fs := r.fsInit()
@@ -757,7 +762,12 @@ func registerFSAPI(e *Engine, m func(string, intrinsicFn)) {
 }
 
 // crash rebuilds every file from a prefix of the op log.
-func (fs *fsModel) crash(r *Run, p string) bool {
+func (fs *fsModel) crash(r *Run, p string) bool { return fs.crashFrom(r, p, false) }
+
+// crashFrom: with anywhere=true the crash may have happened at ANY earlier point of the
+// operation log (the process died in the middle of the calls made so far), not only after the
+// last Sync; the harness oracle must then not assume that a Sync has completed.
+func (fs *fsModel) crashFrom(r *Run, p string, anywhere bool) bool {
 	// indices of ops touching p (through renames we track by current name at time of op)
 	lastSync := 0
 	for i, op := range fs.log {
@@ -766,6 +776,9 @@ func (fs *fsModel) crash(r *Run, p string) bool {
 		}
 	}
 	n := len(fs.log)
+	if anywhere {
+		lastSync = 0
+	}
 	if lastSync >= n {
 		// everything is durable: crash after the last op
 		fs.crashNote = append(fs.crashNote, fmt.Sprintf("crash after all %d ops (all synced)", n))
